@@ -270,6 +270,8 @@ def verify_replay_fresh(prop, path):
 # ------------------------------------------------------------------ main
 
 def run_check(prop, tier, jobs, budget, verif_seed):
+    # the generators read this: the thorough tier also widens the bounds
+    os.environ['VERIF_TIER_EFFECTIVE'] = tier
     from . import lib                                   # noqa: F401
     cases = engine_for(prop)
     t0 = clock.real_time()
